@@ -3,3 +3,6 @@ import SuppModel.Props.C02
 #print axioms SuppModel.Props.C02.C02_table_sound
 #print axioms SuppModel.Props.C02.C02_outcomes
 #print axioms SuppModel.Props.C02.C02_no_false_unused
+#print axioms SuppModel.Props.C02.run_sound
+#print axioms SuppModel.Props.C02.runProg_sound
+#print axioms SuppModel.Props.C02.run_observed_listed
